@@ -32,7 +32,17 @@ def helper(v):
     return v * 2
 
 
+class Unprintable(Exception):
+    def __str__(self):
+        raise RuntimeError('this error has no text')
+
+
+def boom_unprintable():
+    raise Unprintable()
+
+
 HOST_GLOBALS = {'G': 5, 'GFLAG': True, 'GOFF': False, 'GLIST': [1, 2, 3], 'boom': boom, 'boom_base': boom_base,
+                'boom_unprintable': boom_unprintable,
                 'helper': helper, '__name__': 'c10_host'}
 
 BOOL_CONDS = ['y', 't', 'not y', 'y and t', 'G > 50', 'G == x', 'x > 3', 'flag', 'not flag', 'x % 2 == 0', 'flag and x > 1', 'G > x', 'GFLAG', 'GOFF', 'True', 'False',
@@ -41,10 +51,10 @@ BOOL_CONDS = ['y', 't', 'not y', 'y and t', 'G > 50', 'G == x', 'x > 3', 'flag',
               "s == 'a  b'", "'  ' in s", "'\t' in s", "s == 'a b'"]
 BLANK_CONDS = ['', '  ']
 FAIL_CONDS = ['yes', 'true', 'Y', '1/0', 'undefined_name', 'd[1]', "boom('true')", "boom('yes')", "boom('1')", "boom('t')", 'boom_base()',
-              'x.nope', 'x >', ')(', "d['y']", "boom('false')", 'int(s)']
+              'x.nope', 'x >', ')(', "d['y']", "boom('false')", 'int(s)', 'boom_unprintable()']
 AGENT_ONLY = ['uuid', 'deep', 'time_ns', 'FrameCollector', 'LocationAction', 'TriggerContext', 'VariableCacheProvider']
 WATCHES = ['x', 'G', 'y', 'helper', 'G + 1', 'GLIST', 'helper(x)', 'len(s)', 'x + G', 's', 'flag', '1/0', 'nope', 'x +', 'd[1]',
-           'boom_base()', "boom('w')", 'x.nope',
+           'boom_base()', "boom('w')", 'x.nope', 'boom_unprintable()',
            # the two namespaces themselves: what is local and what is global at that line
            'sorted(locals())', 'len(locals())', "globals()['G']", "'G' in locals()", "'x' in globals()", 'sorted(dir())',
            # expression text as a user types it: blanks around it are not part of the expression
